@@ -14,7 +14,7 @@ import (
 )
 
 func init() {
-	for _, id := range []string{"C01", "C02", "C03", "C04", "C05", "C06", "C09", "C10"} {
+	for _, id := range []string{"C01", "C02", "C03", "C04", "C05", "C06", "C09", "C10", "C13"} {
 		id := id
 		core.Register(id, "model_checking", func(c *core.Ctx) error { return runTL1(c, id) })
 	}
@@ -83,6 +83,7 @@ type valPayload struct {
 	Alt    *JT    `json:"alt"`
 	M      string `json:"m"`
 	Bad    bool   `json:"bad"`
+	Accept bool   `json:"accept"`
 	From   *encs  `json:"from"`
 	To     *encs  `json:"to"`
 	Boxed  bool   `json:"boxed"`
@@ -121,7 +122,10 @@ func eqInts(a, b []int) bool {
 // mutations of every encoding, canonical-form acceptance).
 func runTL1(c *core.Ctx, prop string) error {
 	corpora := corporaFor(c)
-	k, kmut, kjson := c.Pick(2, 3), 0, 0
+	k, kmut, kjson, kre := c.Pick(2, 3), 0, 0, 0
+	if prop == "C13" {
+		k, kre = c.Pick(2, 3), c.Pick(3, 4)
+	}
 	if prop == "C02" {
 		k, kmut = c.Pick(1, 2), c.Pick(2, 3)
 	}
@@ -129,7 +133,7 @@ func runTL1(c *core.Ctx, prop string) error {
 		k, kjson = c.Pick(2, 3), c.Pick(3, 4)
 	}
 	for _, cp := range corpora {
-		if err := runCorpusTL1(c, prop, cp, k, kmut, kjson); err != nil {
+		if err := runCorpusTL1(c, prop, cp, k, kmut, kjson, kre); err != nil {
 			return err
 		}
 	}
@@ -138,7 +142,7 @@ func runTL1(c *core.Ctx, prop string) error {
 	return nil
 }
 
-func runCorpusTL1(c *core.Ctx, prop string, cp Corpus, k, kmut, kjson int) error {
+func runCorpusTL1(c *core.Ctx, prop string, cp Corpus, k, kmut, kjson, kre int) error {
 	b, err := Build(c, cp)
 	if err != nil {
 		return err
@@ -147,6 +151,9 @@ func runCorpusTL1(c *core.Ctx, prop string, cp Corpus, k, kmut, kjson int) error
 	var tops []string
 	types := b.Schema["types"].(map[string]any)
 	for _, n := range b.Tops {
+		if types[n].(map[string]any)["tl2"] != true && (prop == "C03" || prop == "C13" || prop == "C04") {
+			continue // TL2-only properties
+		}
 		if types[n].(map[string]any)["origin2"] == true && (prop == "C01" || prop == "C02" || prop == "C04") {
 			continue // TL1-only properties
 		}
@@ -158,7 +165,7 @@ func runCorpusTL1(c *core.Ctx, prop string, cp Corpus, k, kmut, kjson int) error
 	}
 	c.Logf("corpus %s: %d top-level TL1 types, K=%d KMut=%d", cp.Name, len(tops), k, kmut)
 	var firstErr error
-	nVal, nBytes, nAlt, nEdge, acc, rej, unk := 0, 0, 0, 0, 0, 0, 0
+	nVal, nBytes, nAlt, nEdge, nRe, acc, rej, unk := 0, 0, 0, 0, 0, 0, 0, 0
 	onEmit := func(raw json.RawMessage) {
 		if firstErr != nil {
 			return
@@ -211,6 +218,44 @@ func runCorpusTL1(c *core.Ctx, prop string, cp Corpus, k, kmut, kjson int) error
 			}
 			if nEdge%499 == 1 {
 				c.Sample(map[string]any{"corpus": cp.Name, "type": p.Tn, "history": "decode " + hexs(p.From.TL1) + " then " + hexs(p.To.TL1) + " into one object"})
+			}
+			return
+		}
+		if p.Kind == "reenc" {
+			nRe++
+			r, err := b.script(p.Tn, nRe%2 == 1 && cp.BytesVers != "", map[string]any{"op": "read2", "in": p.B})
+			if err != nil {
+				firstErr = err
+				return
+			}
+			s := r.Steps[0]
+			c.Add("evaluations", 1)
+			bad := ""
+			switch {
+			case s.Panic != "":
+				bad = "panic: " + s.Panic
+			case !p.Accept && s.Err == "":
+				bad = fmt.Sprintf("object whose declared size exceeds the input is accepted (consumed %d of %d)", s.Consumed, len(p.B))
+			case !p.Accept:
+			case s.Err != "":
+				bad = fmt.Sprintf("admissible non-minimal encoding (%s) %s rejected: %s", p.M, hexs(p.B), s.Err)
+			case s.Consumed != len(p.B):
+				bad = fmt.Sprintf("non-minimal encoding (%s) %s: consumed %d of %d", p.M, hexs(p.B), s.Consumed, len(p.B))
+			case !eqInts(s.Dump.TL2, p.TL2):
+				bad = fmt.Sprintf("non-minimal encoding (%s) %s decodes to a value written as %s, minimal encoding is %s", p.M, hexs(p.B), hexs(s.Dump.TL2), hexs(p.TL2))
+			case !p.Orig2 && !eqInts(s.Dump.TL1, p.TL1) && nRe%2 == 0:
+				bad = fmt.Sprintf("non-minimal encoding (%s) %s decodes to TL1 %s, expected %s", p.M, hexs(p.B), hexs(s.Dump.TL1), hexs(p.TL1))
+			}
+			if s.Err == "" {
+				acc++
+			} else {
+				rej++
+			}
+			if bad != "" && classOf[prop]["reenc"] {
+				c.Violate(fmt.Sprintf("reenc/%s/%s/%s", cp.Name, p.Tn, negKey(&p, finding{"reenc", p.M + "/" + hexs(p.B), ""})), fmt.Sprintf("type %s: %s", p.Tn, bad), map[string]any{"corpus": cp, "payload": p})
+			}
+			if nRe%307 == 1 {
+				c.Sample(map[string]any{"corpus": cp.Name, "type": p.Tn, "mode": p.M, "bytes": hexs(p.B), "minimal": hexs(p.TL2)})
 			}
 			return
 		}
@@ -282,7 +327,7 @@ func runCorpusTL1(c *core.Ctx, prop string, cp Corpus, k, kmut, kjson int) error
 	res, err := c.TLC(core.TLCOpts{Module: "MC_Codec", Cfg: "MC_Codec.cfg", Workers: 8, Timeout: 20 * time.Minute,
 		Files:  map[string][]byte{"SchemaData.tla": b.SchemaModule(tops)},
 		OnEmit: onEmit,
-		Consts: map[string]string{"SANITY": tlaBool(cp.Sanity), "MAXLEN": "2", "LONGSTR": "{}", "K": strconv.Itoa(k), "KMUT": strconv.Itoa(kmut), "KJSON": strconv.Itoa(kjson), "EDGES": tlaBool(prop == "C09")}})
+		Consts: map[string]string{"SANITY": tlaBool(cp.Sanity), "MAXLEN": "2", "LONGSTR": "{}", "K": strconv.Itoa(k), "KMUT": strconv.Itoa(kmut), "KJSON": strconv.Itoa(kjson), "KRE": strconv.Itoa(kre), "EDGES": tlaBool(prop == "C09")}})
 	if err != nil {
 		return err
 	}
@@ -301,6 +346,7 @@ func runCorpusTL1(c *core.Ctx, prop string, cp Corpus, k, kmut, kjson int) error
 	c.Add("byte_strings", nBytes)
 	c.Add("alternative_json_forms", nAlt)
 	c.Add("history_edges", nEdge)
+	c.Add("tl2_reencodings", nRe)
 	c.Add("impl_accepted", acc)
 	c.Add("impl_rejected", rej)
 	c.Add("outside_model", unk)
@@ -335,10 +381,11 @@ var classOf = map[string]map[string]bool{
 	"C06": {"jsonalt": true},
 	"C09": {"reuse": true},
 	"C10": {"bytesvar": true},
+	"C13": {"reenc": true},
 }
 
 func wantVal(prop string, k int) bool {
-	if prop == "C02" || prop == "C06" {
+	if prop == "C02" || prop == "C06" || prop == "C13" {
 		return k == 0
 	}
 	return true
